@@ -185,6 +185,8 @@ struct Prob {
     equil: bool,
     presolve: bool,
     chordal: bool,
+    /// module-level infinity bound in force while the solver is built (0 = the default 1e20)
+    inf: f64,
 }
 
 fn enc_cones(c: &[SupportedConeT<f64>]) -> String {
@@ -225,6 +227,7 @@ fn prob_of_req(r: &Req) -> Prob {
         equil: r.b("equil"),
         presolve: r.b("presolve"),
         chordal: r.b("chordal"),
+        inf: if r.has("inf") { r.f("inf") } else { 0.0 },
     }
 }
 
@@ -239,6 +242,12 @@ fn settings_of(p: &Prob) -> DefaultSettings<f64> {
 }
 
 fn build(p: &Prob) -> DefaultSolver<f64> {
+    // the module-level bound stays in force until the next build: the operations of a history
+    // run under the bound the solver was built with
+    clarabel::default_infinity();
+    if p.inf > 0.0 {
+        clarabel::set_infinity(p.inf);
+    }
     DefaultSolver::new(&p.P, &p.q, &p.A, &p.b, &p.cones, settings_of(p))
 }
 
@@ -1321,7 +1330,7 @@ fn gen_problem(rng: &mut Rng) -> (Prob, Shape) {
     let wild = rng.bool(0.15);
     let b: Vec<f64> = kinds.iter().map(|&k| if k == 7 { 5.0 } else { gen_b_entry(rng, k, wild) }).collect();
     let q: Vec<f64> = (0..n).map(|_| scaled(rng, -1.0, 1.0, qsc)).collect();
-    let prob = Prob { P, q, A, b, cones, equil: rng.bool(0.6), presolve: false, chordal: false };
+    let prob = Prob { P, q, A, b, cones, equil: rng.bool(0.6), presolve: false, chordal: false, inf: 0.0 };
     (prob, Shape { kinds, psc, qsc })
 }
 
@@ -1570,6 +1579,9 @@ fn submit_history(s: &mut Session, p: &Prob, ops: &[Op]) {
         .b("equil", p.equil)
         .b("presolve", p.presolve)
         .b("chordal", p.chordal);
+    if p.inf > 0.0 {
+        l = l.f("inf", p.inf);
+    }
     l = state_line(l, &solver, flags);
     l = l.u("nops", ops.len());
     for (i, o) in ops.iter().enumerate() {
@@ -1625,6 +1637,36 @@ fn generate(s: &mut Session) {
         let nops = 1 + rng.below(8);
         let rate = *rng.choose(&[0.0, 0.3, 0.3, 0.6]);
         let ops: Vec<Op> = (0..nops).map(|_| gen_op(&mut rng, &p, &sh, &patP, &patA, rate)).collect();
+        submit_history(s, &p, &ops);
+    }
+    // a small module-level infinity bound and one badly scaled nonnegative row: the bound is a
+    // statement about the USER's right-hand side, so an update_b value below it must be taken
+    // as it is even when its equilibrated image e_i·b_i exceeds the bound
+    for _ in 0..s.budget(120, 2400) {
+        let mut rng = s.rng.fork();
+        let (mut p, sh) = gen_problem(&mut rng);
+        let nn: Vec<usize> = (0..p.b.len()).filter(|&i| sh.kinds[i] == 1).collect();
+        if nn.is_empty() {
+            continue;
+        }
+        p.equil = true;
+        p.inf = *rng.choose(&[1e3, 50.0]);
+        let row = *rng.choose(&nn);
+        let sc = *rng.choose(&[1e-2, 1e-3]);
+        for k in 0..p.A.nzval.len() {
+            if p.A.rowval[k] == row {
+                p.A.nzval[k] *= sc;
+            }
+        }
+        let probe = build(&p);
+        let (patP, patA) = (probe.data.P.clone(), probe.data.A.clone());
+        let mut ops: Vec<Op> = (0..rng.below(3)).map(|_| gen_op(&mut rng, &p, &sh, &patP, &patA, 0.0)).collect();
+        // a whole-vector or index-form update of b with the scaled row's bound just below the infinity bound
+        let mut bnew = p.b.clone();
+        bnew[row] = p.inf * rng.uniform(0.3, 0.9);
+        ops.push(if rng.bool(0.5) { Op::B(VArg::Slice(bnew)) } else { Op::B(VArg::Pairs(vec![row], vec![p.inf * rng.uniform(0.3, 0.9)])) });
+        ops.push(Op::Solve);
+        s.count("history:small-infinity-bound");
         submit_history(s, &p, &ops);
     }
     // `update_data` with MIXED argument forms; the first rejecting component is chosen
@@ -1709,7 +1751,7 @@ fn chordal_problem(rng: &mut Rng) -> Prob {
     }
     let q: Vec<f64> = band.iter().map(|&r| if [0, 2, 5, 9].contains(&r) { 1.0 } else { rng.uniform(-0.3, 0.3) }).collect();
     let P = CscMatrix { m: n, n, colptr: vec![0; n + 1], rowval: vec![], nzval: vec![] };
-    Prob { P, q, A, b, cones: vec![SupportedConeT::PSDTriangleConeT(4)], equil: rng.bool(0.5), presolve: false, chordal: true }
+    Prob { P, q, A, b, cones: vec![SupportedConeT::PSDTriangleConeT(4)], equil: rng.bool(0.5), presolve: false, chordal: true, inf: 0.0 }
 }
 
 /// Known finding `KF-C08-stale-equilibration`: the equilibration computed for the data at
@@ -1732,7 +1774,7 @@ fn run_known(r: &Req) -> String {
     let b0 = vec![1.25, -0.25];
     let b: Vec<f64> = b0.iter().map(|v| v * scale).collect();
     let cones = vec![SupportedConeT::NonnegativeConeT(2)];
-    let p = Prob { P, q, A, b, cones, equil: true, presolve: false, chordal: false };
+    let p = Prob { P, q, A, b, cones, equil: true, presolve: false, chordal: false, inf: 0.0 };
     let mut upd = build(&p);
     upd.solve();
     let first = upd.solution.status;
